@@ -5,7 +5,7 @@
 (* The harness logs, per call: event, arguments, outcome (ok/err/panic),   *)
 (* result handle, the projected post-state, the position index and what    *)
 (* the public API answers.  No expected value is computed outside TLC.     *)
-EXTENDS StamApi, StamRead, StamSerial, StamAll, StamWebAnno, StamQuery, Json, IOUtils, SequencesExt
+EXTENDS StamApi, StamRead, StamSerial, StamAll, StamWebAnno, StamQuery, StamConcurrency, Json, IOUtils, SequencesExt
 
 Rec == ndJsonDeserialize(IOEnv.TRACE)
 
@@ -121,6 +121,10 @@ RoundTrip(r) ==
 
 ReadOnly(r) ==
     LET v == IF r.ev = "Lookup" THEN ReadOK(st, r)
+             ELSE IF r.ev = "ConcRun"
+                  THEN [ok |-> ConcConforms(r) /\ ConcSequential(r),
+                        expected |-> [conforms |-> ConcConforms(r), sequential |-> ConcSequential(r), threads |-> ConcExpected(r.a),
+                                      alone |-> [t \in DOMAIN r.a.ops |-> Alone(r.a.shape, r.a.ops[t]).forms]]]
              ELSE IF r.ev = "Query"
                   THEN [ok |-> QueryOK(st, r), expected |-> LET e == EvalQ(st, <<>>, r.a.q) IN [ok |-> e.ok, rows |-> SetToSeq(e.rows)]]
              ELSE IF r.ev = "Parse"
